@@ -61,6 +61,7 @@ def run(ctx):
     ctx.rule("R03.12", "reify=True and reify=False give the same geometry: folding the matrix into rect / round-shape attributes is exact (obligations shared with C02)")
     ctx.rule("R03.13", "unit-bearing translations of nested transforms are accumulated by Length addition: every (unit, unit) cell of += is the CSS ratio (obligations shared with C12)")
     ctx.rule("R03.14", "a rect's corner radii are clamped with the lengths resolved against ppi and viewport (obligations shared with C06 R06.2)")
+    ctx.rule("R03.15", "every render() hands on to its base classes' render on every path")
     ctx.rule("R03.11", "the viewport transform each enclosing svg contributes is the SVG 2 8.2 one (obligations shared with C11)")
     fn = ctx.fn("SVG.parse", "R03.1")
     loop = [s for s in fn.body if isinstance(s, ast.For)]
@@ -98,6 +99,7 @@ def run(ctx):
     from . import c06
 
     c06.clamp_after_render(ctx.renamed("R03.14"))
+    render_chain(ctx)
 
 
 def viewport_state(ctx, fn, start, end):
@@ -587,3 +589,27 @@ def dispatch(ctx, start):
         seen[remaining.pop()] = last_else
     for t, cls in SHAPE_TAGS.items():
         ctx.ob("R03.8", "SVG.parse[%s -> %s]" % (t, cls), seen.get(t) == cls, "constructs %s" % seen.get(t), inner.lineno, "tag constructs the wrong element class")
+
+
+def render_chain(ctx):
+    """render() is where lengths and the unit-bearing translations of the accumulated transform get their values (ppi,
+    viewport).  A subclass's render hands on to its base classes' render first; that call must be made on every path - an early
+    return before it ("nothing of mine to resolve") leaves the transform of the element unresolved."""
+    n = 0
+    for cname, ci in sorted(ctx.m.classes.items()):
+        fn = ci.methods.get("render")
+        if fn is None:
+            continue
+        base_calls = [st for st in ast.walk(fn) if isinstance(st, ast.Expr) and isinstance(st.value, ast.Call) and isinstance(st.value.func, ast.Attribute) and st.value.func.attr == "render"
+                      and isinstance(st.value.func.value, ast.Name) and st.value.func.value.id in ctx.m.classes and st.value.args and isinstance(st.value.args[0], ast.Name)
+                      and st.value.args[0].id == "self"]
+        if not base_calls:
+            continue
+        n += 1
+        top = [st for st in base_calls if any(st is b for b in fn.body)]
+        first = min((fn.body.index(st) for st in top), default=None)
+        early = [b for b in fn.body[:first] if any(isinstance(x, (ast.Return, ast.Raise)) for x in ast.walk(b))] if first is not None else []
+        ctx.ob("R03.15", "%s.render[hands on to the base render on every path]" % cname, len(top) == len(base_calls) and not early,
+               "%d base call(s), %d unconditional; exits before the first: %d" % (len(base_calls), len(top), len(early)), fn.lineno,
+               "a <line x1=\"0\" ...> under translate(1in, 5mm) keeps a Length in its matrix when SimpleLine.render returns before Shape.render")
+    ctx.need(n >= 5, "R03.15", "render methods that hand on to a base render not found (%d)" % n)
